@@ -422,6 +422,9 @@ class Interp:
                 return a * b
             if isinstance(op, ast.BitOr) and isinstance(a, dict) and isinstance(b, dict):
                 return {**a, **b}
+            if isinstance(a, str) and isinstance(op, ast.Mod) and (isinstance(b, (str, int)) or (
+                    isinstance(b, tuple) and all(isinstance(x, (str, int)) or x is None for x in b))):
+                return a % b      # printf-style formatting of concrete values
             ints = isinstance(a, int) and isinstance(b, int)
             if ints and isinstance(op, ast.BitAnd):
                 return a & b
